@@ -20,6 +20,7 @@ from collections import OrderedDict
 from copy import deepcopy
 from functools import partial
 from itertools import chain
+from os import path
 from textwrap import indent
 
 from black import Mode, format_str
@@ -567,6 +568,12 @@ def file(node, filename, mode="a", skip_black=False):
                 string_normalization=False,
             ),
         )
+    if mode.startswith("a") and path.isfile(filename):
+        # Appending to a file whose last line is not terminated would glue the new code onto that line
+        with open(filename, "rt") as f:
+            existing = f.read()
+        if existing and not existing.endswith("\n"):
+            src = "\n{}".format(src)
     with open(filename, mode) as f:
         f.write(src)
 
